@@ -92,6 +92,8 @@ struct Stmt
     int op = -1;
     int thread = 0, sev = 0, tag = 0, form = 0;
     bool noid = false; // nothing identifies the statement in its message (possibly nothing streamed at all)
+    int sink_child = -1;         // statement that sink member 0 issues while it handles this one's record
+    bool is_sink_child = false;
     std::vector<Item> items;
     // observations
     bool begun = false, ended = false, threw = false;
@@ -242,12 +244,18 @@ struct RecSink
 };
 // member 0 is a "keeping" sink, as a queueing sink would be: it takes the record by value and
 // moves it into its store.  Later members of a sequence must still see the whole record.
+// (in some runs it also logs through the same logger while it handles a record, as an auditing
+// sink would; the record in flight must reach the later members unchanged all the same)
+inline void (*g_sink_hook)(int parent_stmt) = nullptr;
 template <>
 struct RecSink<0>
 {
     void sink(nl::severity_level sev, std::string text)
     {
         record_sink(0, sev, std::move(text));
+        int me = Scheduler::self_id();
+        if (g_sink_hook && me >= 0 && me < MAXT)
+            g_sink_hook(g.tctx[me].cur_stmt);
     }
 };
 
